@@ -534,8 +534,43 @@ pub fn run(run: &RunInfo) -> Summary {
         W::Bytes(ii) => byte_level(&items[*ii], &decs, thorough, acc),
         W::Struct(ii) => structure_aware(&items[*ii], &table, &decs, thorough, acc),
     });
+    // the same truncations arriving over a connection that ends: every reply parser behind the
+    // real transport must return (an error), never wait or spin
+    {
+        let ens = crate::real::enums();
+        let reply = crate::real::reply_table();
+        let small: Vec<&Item> = items.iter().filter(|i| i.bytes.len() <= 64 && i.gen.is_some()).collect();
+        let sub = par_for(ens.len(), |ei, acc| {
+            let en = &ens[ei];
+            let variants = &reply.iter().find(|(k, _)| *k == en.key).unwrap().1;
+            for it in &small {
+                let Some((tk, _)) = &it.gen else { continue };
+                if !variants.iter().any(|(_, t)| t == tk) {
+                    continue;
+                }
+                for cut in 0..it.bytes.len() {
+                    let stream = &it.bytes[..cut];
+                    watch_enter(|| format!("c02 {} read through the transport from the truncated stream {}", en.key, hex_short(stream)));
+                    let sh: crate::sim::Sh = std::rc::Rc::new(std::cell::RefCell::new(vcore::dbx::Ctx::new(vec![], vec![], 0)));
+                    let got = (en.read)(sh, stream, 1);
+                    watch_exit();
+                    acc.count("cases", 1);
+                    acc.count("transport_truncations", 1);
+                    match got.first() {
+                        Some((Some(Err(e)), _)) if !e.starts_with("PANIC") => acc.count("transport_truncation_rejected", 1),
+                        other => acc.violation(viol(
+                            format!("c02/{}/transport-truncation/{}", en.key, hex_short(stream)),
+                            format!("{} read through PacketTransport::read_packet from a connection that delivers {} and ends ({} cut after {cut} bytes): expected an error, got {other:?}", en.key, hex_short(stream), it.label),
+                            cut as u64,
+                        )),
+                    }
+                }
+            }
+        });
+        acc.merge(sub);
+    }
     acc.count("corpus_items", items.len() as u64);
-    for (w, c) in [("short bodies decoded", "short_ok"), ("short bodies rejected", "short_err"), ("substituted packets still decoded", "substitution_still_ok"), ("structure-aware edits still decoded", "structure_edit_still_ok")] {
+    for (w, c) in [("truncated replies over an ending connection rejected", "transport_truncation_rejected"), ("short bodies decoded", "short_ok"), ("short bodies rejected", "short_err"), ("substituted packets still decoded", "substitution_still_ok"), ("structure-aware edits still decoded", "structure_edit_still_ok")] {
         if acc.get(c) > 0 {
             acc.witness(w);
         }
@@ -550,9 +585,9 @@ pub fn run(run: &RunInfo) -> Summary {
         transitions: cases,
         traces_validated: cases,
         distinct_nontrivial: acc.get("short_ok") + acc.get("substitution_still_ok") + acc.get("structure_edit_still_ok"),
-        rule: format!("55 struct decoders + 17 reply parsers: every body of length 0..={maxlen} under a correct header; corpus of {} packets (captured blobs, baseline / all-present / sized values of every type): every truncation (raw and with the APDU length patched), every single-byte substitution (255 values at every offset; quick tier: 20 boundary values for packets longer than 300 bytes, and two decoders per packet), structure-aware edits enumerated completely (length prefixes set to boundary forms with and without patching enclosing lengths, BCD fields widened to 1..11 bytes of 99/FF and set to every spelling of max-12..max+60 of their integer type and to MAX/10 followed by every pad byte, calendar fields over months 00..19 x days 00..39 and 00..99 for h/m/s, tags replaced by 1F/FF/sibling tags{}). Oracle: Ok or Err, no panic (overflow checks on), an error for dates and times that do not exist, remainder is a suffix of the input, peak live allocation of a call <= 1024 x input + 64 KiB, no call longer than 20 s. distinct_nontrivial = mutated inputs that still decoded to a value", items.len(), if thorough { "; pairs of edits" } else { "" }),
+        rule: format!("55 struct decoders + 17 reply parsers: every body of length 0..={maxlen} under a correct header; corpus of {} packets (captured blobs, baseline / all-present / sized values of every type): every truncation (raw and with the APDU length patched), every single-byte substitution (255 values at every offset; quick tier: 20 boundary values for packets longer than 300 bytes, and two decoders per packet), structure-aware edits enumerated completely (length prefixes set to boundary forms with and without patching enclosing lengths, BCD fields widened to 1..11 bytes of 99/FF and set to every spelling of max-12..max+60 of their integer type and to MAX/10 followed by every pad byte, calendar fields over months 00..19 x days 00..39 and 00..99 for h/m/s, tags replaced by 1F/FF/sibling tags{}); every truncation of the generated reply packets of up to 64 bytes read through PacketTransport::read_packet by every reply parser that lists the packet, over a connection that ends. Oracle: Ok or Err, no panic (overflow checks on), an error for dates and times that do not exist, remainder is a suffix of the input, peak live allocation of a call <= 1024 x input + 64 KiB, no call longer than 20 s. distinct_nontrivial = mutated inputs that still decoded to a value", items.len(), if thorough { "; pairs of edits" } else { "" }),
         exhaustive: true,
-        required_witnesses: vec!["short bodies decoded".into(), "short bodies rejected".into(), "substituted packets still decoded".into(), "structure-aware edits still decoded".into()],
+        required_witnesses: vec!["truncated replies over an ending connection rejected".into(), "short bodies decoded".into(), "short bodies rejected".into(), "substituted packets still decoded".into(), "structure-aware edits still decoded".into()],
         assumptions: vec![
             "release build with overflow-checks = true stands for 'debug and release decode identically'".into(),
             "byte strings beyond the stated mutation operators are not covered".into(),
